@@ -76,6 +76,71 @@ def q_state(q, loop, ids):
     return "%s %s" % (gs, tm)
 
 
+def queue_oracle(res, delayed, sends, adds_log, left, case):
+    """the property's sentences on what a real queue sent"""
+    addl, agg = (1000, 200) if delayed else (0, 500)
+    for (s, ans, adds) in sends:
+        if len(set(ans + adds)) != len(ans + adds):
+            res.violate("C12:duplicate-in-batch", "a multicast batch carries a record twice", case)
+        for r in ans:
+            if not any(r in rs and c <= s and t + 20 + addl <= s <= c + agg + addl for (c, t, rs) in adds_log):
+                res.violate("C12:queue-window", "record %d sent at %d outside the window of every add that queued it" % (r, s - T0), case)
+    for (c, t, rs) in adds_log:
+        for r in rs:
+            if not any(r in ans and c <= s <= c + agg + addl for (s, ans, _a) in sends):
+                res.violate("C12:queue-late", "record %d queued at %d not on the wire within %d ms" % (r, c - T0, agg + addl), case)
+    if left:
+        res.violate("C12:queue-stuck", "queue not empty and no timer armed", case)
+
+
+def replay_queue_ops(res, delayed, ops):
+    """re-run a stored op list (`a <clock> <stamp> <draw> <n> (<id> <adds>)*` / `f <due>`) on a real queue: adds are
+    replayed as stored, timers fire whenever the real queue has one due before the next add, the rest is drained"""
+    import zeroconf._handlers.multicast_outgoing_queue as mq
+    from unittest import mock
+
+    recs = q_records()
+    ids = {r: i for i, r in enumerate(recs)}
+    addl, agg = (1000, 200) if delayed else (0, 500)
+    loop = FakeLoop()
+    zc = FakeZc(loop)
+    q = mq.MulticastOutgoingQueue(zc, addl, agg)
+    sends, adds_log = [], []
+    draw_box = [20]
+
+    def fire():
+        loop.ms = max(loop.timers.pop(0), loop.ms)
+        n0 = len(zc.sent)
+        q.async_ready()
+        if len(zc.sent) > n0:
+            out = zc.sent[-1]
+            sends.append((loop.ms, [ids[r] for r, _ in out.answers], [ids[r] for r in out.additionals]))
+
+    with mock.patch.object(mq, "RAND_INT", lambda lo, hi: draw_box[0]), mock.patch.object(mq, "current_time_millis", lambda: float(loop.ms)):
+        steps = 0
+        for op in ops:
+            tok = op.split()
+            if tok[0] != "a":
+                continue
+            clock, now, draw, n = int(tok[1]), int(tok[2]), int(tok[3]), int(tok[4])
+            while loop.timers and loop.timers[0] < clock and steps < 1000:
+                steps += 1
+                fire()
+            loop.ms = max(loop.ms, clock)
+            ans = {}
+            for j in range(n):
+                rid, adds = int(tok[5 + 2 * j]), tok[6 + 2 * j]
+                ans[recs[rid]] = set() if adds == "-" else {recs[int(x)] for x in adds.split(",")}
+            draw_box[0] = draw
+            q.async_add(float(now), ans)
+            adds_log.append((loop.ms, now, [ids[r] for r in ans]))
+        while loop.timers and steps < 1000:
+            steps += 1
+            fire()
+    res.evaluations += 1
+    queue_oracle(res, delayed, sends, adds_log, len(q.queue), {"stream": "q", "delayed": delayed, "ops": ops})
+
+
 def run_queue_stream(ctx, res, n):
     import zeroconf._handlers.multicast_outgoing_queue as mq
     from unittest import mock
@@ -96,7 +161,7 @@ def run_queue_stream(ctx, res, n):
         with mock.patch.object(mq, "RAND_INT", lambda lo, hi: draw_box[0]), \
                 mock.patch.object(mq, "current_time_millis", lambda: float(loop.ms)):
             def fire():
-                due = loop.timers.pop(0)
+                due = max(loop.timers.pop(0), loop.ms)  # a timer armed for the past fires now (as `call_at` does)
                 loop.ms = due
                 n0 = len(zc.sent)
                 q.async_ready()
@@ -169,18 +234,7 @@ def run_queue_stream(ctx, res, n):
         # ---- O: the window, no duplicates, everything sent
         if any(len(s[1]) > 1 or s[2] for s in sends) and len(adds_log) > 2:
             res.nontriv("q/%s/%d/%d" % (delayed, len(adds_log), len(sends)))
-        for (s, ans, adds) in sends:
-            if len(set(ans + adds)) != len(ans + adds):
-                res.violate("C12:duplicate-in-batch", "a multicast batch carries a record twice", case)
-            for r in ans:
-                if not any(r in rs and c <= s and t + 20 + addl <= s <= c + agg + addl for (c, t, rs) in adds_log):
-                    res.violate("C12:queue-window", "record %d sent at %d outside the window of every add that queued it" % (r, s - T0), case)
-        for (c, t, rs) in adds_log:
-            for r in rs:
-                if not any(r in ans and c <= s <= c + agg + addl for (s, ans, _a) in sends):
-                    res.violate("C12:queue-late", "record %d queued at %d not on the wire within %d ms" % (r, c - T0, agg + addl), case)
-        if left:
-            res.violate("C12:queue-stuck", "queue not empty and no timer armed", case)
+        queue_oracle(res, delayed, sends, adds_log, left, case)
 
 
 # ------------------------------------------------------------------------------------------
@@ -329,7 +383,25 @@ def run_scenario(seed, sc_no):
             src = rng.choice(srcs)
             port = 5353 if rng.random() < 0.85 else 40000
             probe = rng.random() < 0.12
-            if rng.random() < 0.3:
+            if rng.random() < 0.22:
+                # a truncated train exactly as `DNSOutgoing.packets()` emits it: one PTR question and so many known answers
+                # that the continuation packets carry answers only (no question section)
+                datas = R.build_long_query(rng, infos, uni, next_id())
+                lose = rng.choice(["none", "none", "last", "last", "middle"]) if len(datas) > 1 else "none"
+                if lose == "last":
+                    datas = datas[:-1]
+                elif lose == "middle" and len(datas) > 2:
+                    del datas[rng.randrange(1, len(datas) - 1)]
+                off = 0
+                for j, data in enumerate(datas):
+                    if j == 0:
+                        host.deliver(data, (src, port))
+                    else:
+                        off += rng.choice([0, 0, 1, 5, 30, 100, 100, 399, 400, 401, 450, 499, 500, 501])
+                        sim.loop.call_later(off / 1000.0, host.deliver, data, (src, port))
+                    actions.append(("tcq-lib", now - T0 + off, src, port, "%d bytes, %s" % (len(data), data[:12].hex())))
+                box["long_trains"] = box.get("long_trains", 0) + 1
+            elif rng.random() < 0.3:
                 # a truncated train
                 npk = rng.choice([1, 2, 2, 3, 4])
                 same = rng.random() < 0.3
@@ -353,13 +425,17 @@ def run_scenario(seed, sc_no):
                 data, _qs, _qus = R.build_query(rng, infos, uni, next_id(), probe=probe)
                 host.deliver(data, (src, port))
                 actions.append(("q", now - T0, src, port, data.hex()))
-        await sim.sleep_ms(3500)
+        await sim.sleep_ms(9000)
+        box["end_t"] = sim.loop.ms
         tr.uninstall()
         box["actions"] = actions
         await vsim.close_host(host)
 
     try:
-        sim.run(main)
+        with R.wall_deadline(40):
+            sim.run(main)
+    except R.ScenarioTimeout as ex:
+        box["timeout"] = str(ex)
     finally:
         if "tr" in box:
             box["tr"].uninstall()
@@ -371,7 +447,9 @@ def spec_classes(tr, b, parsed_by_data):
     """the property's classification of every answer of one assembly, from the implementation's own
     observations (packets, cache snapshot), written from the English sentence -- not from the model"""
     asm = b["asm"]
-    pkts = [parsed_by_data[d] for d in asm["datas"]]
+    # the packets the reply must be based on: all distinct packets delivered by this source (`tc_pass`), which is what
+    # the listener assembled unless it lost some -- then `tc_pass` has already reported it
+    pkts = [parsed_by_data[d] for d in (b.get("want") or asm["datas"])]
     seen = {i: (c, ttl) for (i, c, ttl) in asm["seen"]}
     probe = any(p["num_auth"] > 0 for p in pkts)
     known = {}
@@ -420,6 +498,68 @@ def spec_classes(tr, b, parsed_by_data):
     return out
 
 
+def tc_pass(res, tr, blocks, case, end_t):
+    """Truncated queries, judged from what was *delivered* (not from what the listener chose to keep):
+    every distinct TC packet of a source is held; the hold ends 400..500 ms after the last distinct packet, or at once
+    when a packet without TC arrives from that source; all held packets (plus that one) are answered together, once.
+    Sets b["want"] (the datagrams the reply must be based on) on the block where the answer is due.
+    An exact repeat of the immediately preceding datagram within a second is C16's subject: accepted either way."""
+    pending, last_t = {}, {}
+    prev = None
+    for b in blocks:
+        t = b["t"]
+        if b["kind"] == "rx":
+            valid, isq, _hasqu, pkt = b["pq"]
+            data, addr = b["data"], b["src"][0]
+            dup_prev = prev is not None and prev[0] == data and t - prev[1] < 1000
+            prev = (data, t)
+            if not (valid and isq):
+                continue
+            tc = bool(pkt["flags"] & 0x200)
+            took = b["draws_tc"] if tc else bool(b["asm"])
+            if dup_prev and not took:
+                continue
+            at = dict(case, at_ms=t - T0, source=addr)
+            if tc:
+                if data in pending.get(addr, []):
+                    if took:
+                        res.violate("C12:tc-hold", "a repeated (not distinct) truncated packet re-armed the hold", at)
+                    continue
+                pending.setdefault(addr, []).append(data)
+                last_t[addr] = t
+                if not took:
+                    res.violate("C12:tc-assembly", "a truncated packet (%d questions, %d known answers) was not held for the rest of its train" % (
+                        pkt["nq"], len(pkt["known"])), at)
+                if b["asm"]:
+                    res.violate("C12:tc-hold", "a truncated packet was answered in its own block instead of being held 400..500 ms", at)
+            else:
+                want = pending.pop(addr, []) + [data]
+                last_t.pop(addr, None)
+                b["want"] = want
+                if not b["asm"]:
+                    res.violate("C12:tc-assembly", "the packet without TC that completes a query of %d packet(s) did not end the hold / was not answered" % len(want), at)
+                elif b["asm"]["datas"] != want:
+                    res.violate("C12:tc-assembly", "reply based on %d packet(s); %d distinct packets of this source were pending (answered once, together, is required)" % (
+                        len(b["asm"]["datas"]), len(want)), at)
+        elif b["kind"] == "tc":
+            addr = b["addr"]
+            at = dict(case, at_ms=t - T0, source=addr)
+            want = pending.pop(addr, None)
+            if want is None:
+                res.violate("C12:tc-assembly", "truncated-query timer fired although nothing of this source is pending", at)
+            else:
+                b["want"] = want
+                if not (400 <= t - last_t[addr] <= 500):
+                    res.violate("C12:tc-hold", "truncated query answered %d ms after its last distinct packet (400..500 required)" % (t - last_t[addr]), at)
+                if not b["asm"] or b["asm"]["datas"] != want:
+                    res.violate("C12:tc-assembly", "reply based on %s packet(s); %d distinct packets of this source were pending" % (
+                        len(b["asm"]["datas"]) if b["asm"] else "no", len(want)), at)
+            last_t.pop(addr, None)
+    for addr in pending:
+        if end_t - last_t[addr] > 600:
+            res.violate("C12:tc-unanswered", "truncated query of %s (last packet at %d ms) never answered" % (addr, last_t[addr] - T0), dict(case, source=addr))
+
+
 def check_trace_O(res, box, case):
     tr = box["tr"]
     blocks = tr.blocks
@@ -427,6 +567,7 @@ def check_trace_O(res, box, case):
     for b in blocks:
         if b["kind"] == "rx" and b.get("parsed"):
             parsed_by_data[b["data"]] = b["parsed"]
+    tc_pass(res, tr, blocks, case, box.get("end_t", blocks[-1]["t"] if blocks else 0))
     asms = []
     for i, b in enumerate(blocks):
         if b["asm"] and b["asm"]["npkts"]:
@@ -507,28 +648,6 @@ def check_trace_O(res, box, case):
             else:
                 res.violate("C12:unjustified-multicast", "%s multicast as an answer at %d ms: no query puts it there (too early, too late, suppressed by a known answer, "
                             "or repeated inside the protected second)" % (tr.uni.describe(rid), s - T0), dict(case, at_ms=s - T0))
-    # ---- truncated queries: held 400..500 ms after the last accepted packet, each packet answered once
-    last_tc = {}
-    pending = {}
-    for i, b in enumerate(blocks):
-        if b["kind"] == "rx" and any(lo == 400 and hi == 500 for (lo, hi, _v) in b["draws"]):
-            last_tc[b["src"][0]] = b["t"]
-            pending.setdefault(b["src"][0], []).append(b["data"])
-        if b["asm"]:
-            addr = b["asm"]["addr"]
-            if b["kind"] == "tc":
-                if addr not in last_tc or not (400 <= b["t"] - last_tc[addr] <= 500):
-                    res.violate("C12:tc-hold", "truncated query from %s answered %s ms after its last packet" % (addr, b["t"] - last_tc.get(addr, 0)), case)
-            want = pending.pop(addr, [])
-            got = b["asm"]["datas"]
-            extra = 1 if (b["kind"] == "rx" and not b["draws_tc"]) else 0
-            if got[:len(got) - extra] != want:
-                res.violate("C12:tc-assembly", "truncated packets of %s not answered exactly once, together" % addr, case)
-            last_tc.pop(addr, None)
-        elif b["kind"] == "tc":
-            res.violate("C12:tc-assembly", "truncated-query timer fired with nothing to answer", case)
-    for addr in pending:
-        res.violate("C12:tc-unanswered", "truncated query of %s never answered" % addr, case)
     return len(asms), len(mcasts)
 
 
@@ -542,6 +661,11 @@ def run_trace_stream(ctx, res, n, only=None):
     todo = only if only is not None else [(ctx["seed"], k) for k in range(n)]
     for (seed, sc_no) in todo:
         box = run_scenario(seed, sc_no)
+        if "tr" not in box:
+            res.evaluations += 1
+            res.violate("C12:scenario-did-not-start", "the responder could not be brought up: %s %s" % (box.get("timeout"), box["errors"][:2]),
+                        {"stream": "tr", "seed": seed, "scenario": sc_no})
+            continue
         tr = box["tr"]
         evs = []
         for b in tr.blocks:
@@ -562,6 +686,10 @@ def run_trace_stream(ctx, res, n, only=None):
         case = trace_case(seed, sc_no, box)
         if box["errors"]:
             res.disagree("c12run", case, "exception in a callback: %s" % box["errors"][:2], "no exception")
+        if tr.dead or box.get("timeout"):
+            # the watchdog silenced the host: the code under test kept the event loop busy without letting time advance
+            res.violate("C12:timer-livelock", "the responder stopped making progress: %s; whatever was queued is never sent (the harness muted the host to terminate)" % (
+                tr.dead or box.get("timeout")), case)
         if tr.orphans:
             res.notes.append("sends outside any block in scenario %s/%s: %d" % (seed, sc_no, len(tr.orphans)))
         if model is not None:
@@ -601,6 +729,8 @@ def run_corpus(ctx, res):
             run_trace_stream(ctx, res, 0, only=[(body["seed"], body["scenario"])])
         elif kind == "d12":
             run_d12(res)
+        elif kind == "q":
+            replay_queue_ops(res, body["delayed"], body["ops"])
 
 
 def run_d12(res):
@@ -685,7 +815,9 @@ def replay(body):
     elif case.get("stream") == "cls":
         run_cls_stream(ctx, res)
         res.violations = [v for v in res.violations if all(v["case"].get(k) == case.get(k) for k in case)]
+    elif case.get("stream") == "q":
+        replay_queue_ops(res, case["delayed"], case["ops"])
     else:
-        return {"violates": None, "note": "queue op-sequence cases are self-describing: see case.ops; re-run ./check C12 quick"}
+        return {"violates": None, "note": "unknown case"}
     return {"violates": bool(res.violations), "violations": [dict(sig=v["sig"], what=v["what"]) for v in res.violations[:5]],
             "disagreements": res.disagreements[:3]}
